@@ -202,6 +202,14 @@ def check(rep: Report, ctx: Ctx) -> None:
     rep.rule("R11.7", "cleaning leaves no orphan link rows", 2)
     link_rows_follow_node_deletes(rep, ctx, "R11.7", sql.run(top))
 
+    # ---- R11.9 ---------------------------------------------------------------
+    rep.rule("R11.9", "no phantom parent: the dangling-parent test only sees "
+             "links of spans that were stored with that parent (a well-formed "
+             "trace is never deleted for a parent id the store itself "
+             "normalised away)", 1)
+    from .c10 import link_root_agreement
+    link_root_agreement(rep, ctx, "R11.9")
+
 
 def _generic(nf: str) -> str:
     import re
